@@ -79,6 +79,16 @@ Proof.
   - rewrite conns_evict in H. left. exact H.
   - left. exact H.
   - left. exact H.
+  - fold (handle_sub_mid c s sid victim space pats) in H. left.
+    unfold handle_sub_mid, handle_sub_mid_gen in H. fold (handle_sub c (drop_pool s victim) sid space pats) in H.
+    fold (handle_sub c s sid space pats) in H.
+    destruct (sub_reaches_tagging c s sid space pats).
+    + pose proof (conns_sub c (drop_pool s victim) sid space pats) as E.
+      destruct (handle_sub c (drop_pool s victim) sid space pats) as [s2 o]. cbn [fst] in *.
+      replace (sv_conns (on_stream_close s2 victim)) with (sv_conns s2) in H; [rewrite E in H; exact H|].
+      unfold on_stream_close. destruct (nassoc victim (sv_streams s2)); reflexivity.
+    + pose proof (conns_sub c s sid space pats) as E. destruct (handle_sub c s sid space pats) as [s2 o]. cbn [fst] in *.
+      rewrite conns_pool_remove, E in H. exact H.
 Qed.
 
 Lemma svc_exec_cons : forall c s e r, svc_exec c s (e :: r) = svc_exec c (fst (svc_step c s e)) r.
@@ -381,7 +391,8 @@ Definition withdraws (s : svc) (e : ev) (sid sp : N) (p : str) : Prop :=
   | ECloseSpace sp' => sp' = sp
   | _ => False
   end.
-Definition is_sub (e : ev) : bool := match e with ESub _ _ _ => true | _ => false end.
+(* events that can register interest: Subscribe, also the one during which a stream leaves the pool *)
+Definition is_sub (e : ev) : bool := match e with ESub _ _ _ | ESubMid _ _ _ _ => true | _ => false end.
 
 Lemma evict_kills : forall s space evict wt sigma q a, Inv s -> (wt = true \/ forall x, evict x = true) ->
   nassoc sigma (sv_conns s) = Some a -> evict a = true ->
